@@ -319,6 +319,34 @@ fn gen_atom_or_small(h: &Harvest, cfg: &GenCfg, depth: usize, rng: &mut Rng) -> 
   }
 }
 
+/// A utility that refers to itself (or to `other`) below a relation, next to a kinded alternative in an
+/// `any`/`all`: legal recursion (`wraps: {kind: K, has: {any: [{kind: K2}, {matches: wraps}]}}`), and the
+/// shape whose kind caches are computed while the referenced utility is not registered yet.
+pub fn gen_recursive_util(h: &Harvest, name: &str, other: Option<&String>, rng: &mut Rng) -> R {
+  let k1 = R::Kind(rng.pick(&h.kinds).clone());
+  let k2 = R::Kind(rng.pick(&h.kinds).clone());
+  let target = match other {
+    Some(o) if rng.chance(1, 2) => o.clone(),
+    _ => name.to_string(),
+  };
+  let alt = |rng: &mut Rng| {
+    if rng.chance(3, 4) {
+      R::Any(vec![k2.clone(), R::Matches(target.clone())])
+    } else {
+      R::All(vec![R::Matches(target.clone()), R::Not(Box::new(k2.clone()))])
+    }
+  };
+  // the recursion goes through `stopBy: neighbor` only: with `end` the evaluation (implementation and
+  // reference alike, neither memoises) is exponential in the nesting depth
+  let stop = Stop::Neighbor;
+  match rng.below(5) {
+    0 | 1 => R::Obj(vec![k1, R::Has(Box::new(alt(rng)), stop, None)]),
+    2 => R::Obj(vec![k1, R::Inside(Box::new(alt(rng)), stop, None)]),
+    3 => R::Any(vec![k1.clone(), R::Obj(vec![k2.clone(), R::Has(Box::new(R::Matches(target.clone())), Stop::Neighbor, None)])]),
+    _ => R::Obj(vec![k1, if rng.chance(1, 2) { R::Follows(Box::new(alt(rng)), Stop::Neighbor) } else { R::Precedes(Box::new(alt(rng)), Stop::Neighbor) }]),
+  }
+}
+
 /// a random rule tree; every operator of the rule reference can appear
 pub fn gen_rule(h: &Harvest, cfg: &GenCfg, depth: usize, rng: &mut Rng) -> R {
   if depth >= cfg.max_depth {
@@ -331,12 +359,12 @@ pub fn gen_rule(h: &Harvest, cfg: &GenCfg, depth: usize, rng: &mut Rng) -> R {
     4 => R::Not(Box::new(gen_rule(h, cfg, depth + 1, rng))),
     5 | 6 => {
       let field = if cfg.allow_field && !h.fields.is_empty() && rng.chance(1, 3) { Some(rng.pick(&h.fields).clone()) } else { None };
-      let stop = if field.is_some() { Stop::Neighbor } else { gen_stop(h, cfg, depth, rng) };
+      let stop = if field.is_some() && rng.chance(1, 3) { Stop::Neighbor } else { gen_stop(h, cfg, depth, rng) };
       R::Inside(Box::new(gen_rule(h, cfg, depth + 1, rng)), stop, field)
     }
     7 | 8 => {
       let field = if cfg.allow_field && !h.fields.is_empty() && rng.chance(1, 3) { Some(rng.pick(&h.fields).clone()) } else { None };
-      let stop = if field.is_some() { Stop::Neighbor } else { gen_stop(h, cfg, depth, rng) };
+      let stop = if field.is_some() && rng.chance(1, 3) { Stop::Neighbor } else { gen_stop(h, cfg, depth, rng) };
       R::Has(Box::new(gen_rule(h, cfg, depth + 1, rng)), stop, field)
     }
     9 => R::Precedes(Box::new(gen_rule(h, cfg, depth + 1, rng)), gen_stop(h, cfg, depth, rng)),
